@@ -626,9 +626,9 @@ func main() {
 	thorough := *tier == "thorough"
 
 	// ---- D0
-	splitLen := 4
+	splitLen, splitRandom := 4, 1500
 	if thorough {
-		splitLen = 6
+		splitLen, splitRandom = 5, 40000
 	}
 	m.SplitLen = splitLen
 	var sc []string
@@ -637,6 +637,15 @@ func main() {
 	sin = append(sin, hpPool...)
 	sin = append(sin, rAddrs...)
 	sin = append(sin, "[::1]:80", "[fe80::1%eth0]:22", "example.com:http", "[a]:b]:1", "[[a]:1", "a:1]", "[a:b]:c:d", "[]:1", "[]:", "[:]:1")
+	salpha := []string{"a", "1", ":", "[", "]", "%", "."}
+	for i := 0; i < splitRandom; i++ { // longer strings over the same alphabet
+		n := splitLen + 1 + r.Intn(5)
+		var sb strings.Builder
+		for k := 0; k < n; k++ {
+			sb.WriteString(r.Pick(salpha))
+		}
+		sin = append(sin, sb.String())
+	}
 	for _, s := range sin {
 		sc = append(sc, sCase(s))
 		sj = append(sj, sJSON{"split", s})
